@@ -74,7 +74,9 @@ class DumperBase(DataStreamProcessor):
         for descriptor in self.datapackage.descriptor['resources']:
             if descriptor['name'] == resource.res.descriptor['name']:
                 resource_descriptor = descriptor
-        DumperBase.inc_attr(resource_descriptor, self.resource_rowcount, counter)
+        # a resource is written once per dump: its own counters are set, not added to what a
+        # descriptor loaded from an earlier dump already carries
+        DumperBase.set_attr(resource_descriptor, self.resource_rowcount, counter)
         resource.res.commit()
         self.datapackage.commit()
 
